@@ -90,7 +90,7 @@ def main(c):
             if tag == 'A' or c.tier == 'thorough':
                 shards.append(['enum', c.seed, 1, w, kd])
             c2 = vlib.Check('C05', 'exploration', ['--tier', c.tier])   # scratch collector: the driver's own C01 verdicts are not C05's
-            vlib.run_shards(c2, exe, shards, env={'MALLOC_PERTURB_': perturb, 'CQV_NOISE': '2' if tag == 'A' else '5'}, cpu_limit=3000)
+            vlib.run_shards(c2, exe, shards, env={'MALLOC_PERTURB_': perturb, 'CQV_NOISE': '2' if tag == 'A' else '5', 'CQV_KEEP_STRUCTURE_ONLY': '1'}, cpu_limit=3000)
             for m in c2.inconclusive:
                 c.fail_harness('writer run %s: %s' % (tag, m))
             # every 6th table is also written through a pipe (a stream that cannot seek or tell) with the same write history and must
@@ -150,7 +150,7 @@ def main(c):
               'IEEE CRC-32 of stored page bytes, uncompressed sizes, offsets) and the decoded table compared with the model dump. distinct = sha1 of file bytes, rows > 0')
     c.assumptions = ['total_uncompressed_size / total_byte_size accepted as sum of page payloads or payloads+headers', 'codec id 5 accepted as raw LZ4 block or Hadoop framing',
                      'ColumnChunk.file_offset only required to lie inside the file']
-    for k in ('tables_also_written_through_a_pipe', 'files_validated', 'chunks_with_2plus_pages', 'pages_with_crc', 'files_written_twice_and_compared', 'files_codec_0', 'files_codec_1', 'files_codec_2', 'files_codec_5', 'files_codec_6'):
+    for k in ('tables_also_written_through_a_pipe', 'files_closed_ok_after_a_refused_batch_validated', 'files_validated', 'chunks_with_2plus_pages', 'pages_with_crc', 'files_written_twice_and_compared', 'files_codec_0', 'files_codec_1', 'files_codec_2', 'files_codec_5', 'files_codec_6'):
         c.require(k)
 
 
